@@ -51,6 +51,8 @@ func conf(work string) string {
 	var sb strings.Builder
 	sb.WriteString("SecRuleEngine On\nSecRequestBodyAccess On\nSecResponseBodyAccess On\nSecResponseBodyMimeType text/plain application/json\n")
 	sb.WriteString("SecRequestBodyLimit 64\nSecRequestBodyInMemoryLimit 8\nSecResponseBodyLimit 64\n")
+	// exactly as many arguments as the probes carry: anything a recycled object still counts pushes them over the limit
+	sb.WriteString("SecArgumentsLimit 2\n")
 	fmt.Fprintf(&sb, "SecTmpDir %s\nSecUploadDir %s\nSecUploadKeepFiles Off\n", work, work)
 	sb.WriteString("SecAuditEngine On\nSecAuditLogType verifcap\nSecAuditLog /dev/null\nSecAuditLogParts ABCFHKZ\n")
 	// ---- phase 1
@@ -163,7 +165,11 @@ func runPred(w coraza.WAF, p pred, calls *int) (types.Transaction, func() string
 		if !do(func() { tx.ProcessRequestHeaders() }) {
 			return
 		}
-		if !do(func() { _, _, _ = tx.WriteRequestBody([]byte(body)) }) {
+		// two chunks: the first stays in memory, the second crosses the in-memory limit (spill after a prefix)
+		if !do(func() {
+			_, _, _ = tx.WriteRequestBody([]byte(body[:4]))
+			_, _, _ = tx.WriteRequestBody([]byte(body[4:]))
+		}) {
 			return
 		}
 		if r, err := tx.RequestBodyReader(); err == nil {
